@@ -166,6 +166,20 @@ Theorem C14_public_eval_agrees : forall st p path,
   obs_out (read_value st p) = match jp_eval (r_root st) p with Some v => OOk v | None => OErr METHOD_NOT_FOUND end.
 Proof. exact jp_eval_agrees. Qed.
 
+(** the RFC 6901 oracle applied to the implementation's [parse_json_pointer] /
+    [eval_json_pointer] observations accepts the model of those functions, and
+    whatever it accepts on an RFC pointer is the RFC tokenisation and lookup *)
+Theorem C14_public_pointer_ok : forall d p, ok_jp d p (jp_parse p) (jp_eval d p) = true.
+Proof. exact jp_ok. Qed.
+
+Theorem C14_public_pointer_pins : forall d p toks ev path,
+  rfc_decode p = Some path -> ok_jp d p toks ev = true -> toks = path /\ ev = sp_get d path.
+Proof. exact jp_ok_pins. Qed.
+
+Example C14_public_pointer_slash :
+  rfc_decode [SLASH] = Some [[]] /\ ok_jp JNull [SLASH] [] (Some JNull) = false /\ rfc_decode [97] = None.
+Proof. vm_compute. repeat split. Qed.
+
 (** ** concurrent requests are serialised: whatever the interleaving of the
     lock sections, the completed requests with their answers and calls, in
     completion order, are a sequential execution ending in the same state, and
@@ -412,3 +426,9 @@ Print Assumptions C14_mount_serves_below.
 Print Assumptions C14_mount_serves_only_below.
 Print Assumptions C14_public_eval_agrees.
 Print Assumptions C14_requests_linearizable.
+
+Check C14_public_pointer_ok : forall d p, ok_jp d p (jp_parse p) (jp_eval d p) = true.
+Check C14_public_pointer_pins : forall d p toks ev path,
+  rfc_decode p = Some path -> ok_jp d p toks ev = true -> toks = path /\ ev = sp_get d path.
+Print Assumptions C14_public_pointer_ok.
+Print Assumptions C14_public_pointer_pins.
